@@ -12,6 +12,7 @@ res = collections.defaultdict(list)
 for (sid, chk), rows in hist.items():
     last = dict(rows[-1])
     last['earlier_miss'] = any(r['exit'] == '0' for r in rows[:-1]) and last['exit'] == '1'
+    last['earlier_exit2'] = any(r['exit'] == '2' for r in rows[:-1]) and last['exit'] == '1'
     res[sid].append(last)
 print("| seeded change | property | what it changes / needs to manifest | caught by (quick tier; violation lines) | missed by |")
 print("|---|---|---|---|---|")
@@ -23,6 +24,6 @@ for d in sorted(glob.glob('/verif/seeded/C*/')):
     if isinstance(what, list): what = ' '.join(what)
     txt = (what.split('. ')[0][:150] + ' / ' + str(need).split('. ')[0][:130]).replace('|', '\\|').replace('\n', ' ')
     caught = [f"{r['check']} ({r['violation_lines']})" for r in res.get(sid, []) if r['exit'] == '1']
-    missed = [r['check'] for r in res.get(sid, []) if r['exit'] == '0'] + [f"{r['check']} (earlier version of the check)" for r in res.get(sid, []) if r['earlier_miss']]
+    missed = [r['check'] for r in res.get(sid, []) if r['exit'] == '0'] + [f"{r['check']} (earlier version of the check)" for r in res.get(sid, []) if r['earlier_miss']] + [f"{r['check']} (earlier version: detected but not reproducible on replay, exit 2)" for r in res.get(sid, []) if r['earlier_exit2']]
     other = [f"{r['check']}: exit {r['exit']}" for r in res.get(sid, []) if r['exit'] not in ('0', '1')]
     print(f"| {sid} | {m.get('property')} | {txt} | {', '.join(caught) or '-'} | {', '.join(missed + other) or '-'} |")
